@@ -85,18 +85,20 @@ def rule_dialect(rep: Report, rid="C05.dialect") -> None:
     rep.used_file(DFILE)
     cls = f.cls("gherkin.dialect.Dialect")
     for prop, key in PROP_KEY.items():
-        fi = cls.find_method(prop)
-        if fi is None:
-            rep.ob(rid, f"Dialect.{prop} exists", False, file=DFILE, function=cls.qualname, expected="property", found="missing")
-            continue
         I = new_interp()
-        tree, rv, st = I.run(fi.qualname)
-        rep.used_function(fi.qualname)
-        selft = ("param", fi.params()[0])
+        try:
+            rv, tree = I.eval_attr(cls, prop)
+        except Exception as e:
+            rv, tree = ("opaque", f"{type(e).__name__}: {e}"), []
+        selft = ("param", "self")
         want = ("item", ("attr", selft, "spec"), const(key))
         muts = [n for n, _ in nf.iter_nodes(tree) if n[0] in ("mutate", "setitem", "setattr")]
-        rep.ob(rid, f"Dialect.{prop} is the table's '{key}' list, as listed (same order, no copy tricks)", rv == want and fi.is_property and not muts,
-               file=DFILE, line=fi.node.lineno, function=fi.qualname, expected=f"self.spec['{key}']", found=fmt(rv, I) + (f" with {len(muts)} mutation(s)" if muts else ""))
+        fi = cls.find_method(prop)
+        if fi is not None:
+            rep.used_function(fi.qualname)
+        rep.ob(rid, f"Dialect.{prop} is the table's '{key}' list, as listed (same order, no copy tricks)", rv == want and not muts,
+               file=DFILE, line=fi.node.lineno if fi else cls.node.lineno, function=fi.qualname if fi else cls.qualname, expected=f"self.spec['{key}']",
+               found=fmt(rv, I) + (f" with {len(muts)} mutation(s)" if muts else ""))
     # for_name
     fi = cls.find_method("for_name")
     I = new_interp()
